@@ -4,7 +4,7 @@
    (harness/props/c08.py), which evaluate `agree_*` below inside Coq on exact rationals.
    Definitions only; proofs are in Proofs/C08_*.v. *)
 From Coq Require Import ZArith QArith Qabs List Bool Arith.
-From LK Require Import Lib.QLib.
+From LK Require Import Lib.QLib Lib.SortPerm.
 Import ListNotations.
 Open Scope Q_scope.
 
@@ -106,9 +106,7 @@ Definition rank_score (counts : list nat) (c : nat) : Q :=
 
 (* quantile: sort ascending by count, cumulative sum, divide by the total; the order among equal
    counts is whatever the sort gives (model: stable, i.e. by item number) *)
-Fixpoint insert_by {A} (leb : A -> A -> bool) (x : A) (l : list A) : list A :=
-  match l with [] => [x] | y :: r => if leb x y then x :: l else y :: insert_by leb x r end.
-Definition isort {A} (leb : A -> A -> bool) (l : list A) : list A := fold_right (insert_by leb) [] l.
+(* insert_by / isort: stable insertion sort, Lib/SortPerm.v *)
 
 Fixpoint cumsum_from (acc : nat) (l : list nat) : list nat :=
   match l with [] => [] | x :: r => (acc + x)%nat :: cumsum_from (acc + x) r end.
